@@ -311,7 +311,8 @@ func TestC16(t *testing.T) { core.Run(t, "C16", genC16, checkC16) }
 // and the result is inside C16's domain (for stills: canvas equals the picture size).
 func assembleC14(c *c14Case) (data []byte, still bool, ok bool) {
 	m := mux.NewMuxer()
-	nFrames, anyDur := 0, false
+	nFrames := 0
+	var durs []int
 	var first *c14Op
 	cw, ch := 0, 0
 	for i := range c.Ops {
@@ -338,12 +339,14 @@ func assembleC14(c *c14Case) (data []byte, still bool, ok bool) {
 				if op.DisposeBG {
 					fo.DisposeMode = mux.DisposeBackground
 				}
-				if op.Duration > 0 {
-					anyDur = true
-				}
 			}
 			if m.AddFrame(d, fo) != nil {
 				return nil, false, false
+			}
+			if op.NilOpts {
+				durs = append(durs, 0)
+			} else {
+				durs = append(durs, clampDur(op.Duration))
 			}
 			if first == nil {
 				first = op
@@ -353,8 +356,8 @@ func assembleC14(c *c14Case) (data []byte, still bool, ok bool) {
 			m.SetFrameDisposeMode(op.Index, mux.DisposeMode(op.IVal))
 		case "setduration":
 			m.SetFrameDuration(op.Index, op.IVal)
-			if op.IVal > 0 && op.Index >= 0 && op.Index < nFrames {
-				anyDur = true
+			if op.Index >= 0 && op.Index < nFrames {
+				durs[op.Index] = clampDur(op.IVal)
 			}
 		case "canvas":
 			m.SetCanvasSize(op.IVal, op.IVal2)
@@ -373,6 +376,12 @@ func assembleC14(c *c14Case) (data []byte, still bool, ok bool) {
 	}
 	if nFrames == 0 || cw > 16383 || ch > 16383 {
 		return nil, false, false
+	}
+	anyDur := false
+	for _, d := range durs {
+		if d > 0 {
+			anyDur = true
+		}
 	}
 	still = nFrames == 1 && !anyDur
 	if still && cw > 0 && ch > 0 && (cw != first.W || ch != first.H) {
